@@ -19,13 +19,16 @@ INFO = {
     ],
 }
 
-ENTRIES = ["included", "absyn", "oldabsyn", "symeexpr", "annabs", "foamexpr", "lisp"]
+ENTRIES = ["included", "absyn", "oldabsyn", "symeexpr", "annabs", "foamexpr", "lisp", "c_single", "c_split"]
 
 
 def queries(ctx, extra):
     qs = []
     for e in ENTRIES:
         qs.append(Query(name="emit_" + e, harness="c18_emit.c", entry="h_emit_" + e, srcs=["emit.c", "file.c"], unwind=26,
-                        defs=["-DV_NO_STO_STUBS"], object_bits=12, remove_bodies=["fileEnsureDirectory"],
+                        defs=["-DV_NO_STO_STUBS"], object_bits=12, remove_bodies=["fileEnsureDirectory", "emitFileRemove"],
                         bound="every failure schedule over <= 24 stdio calls", group="emitters"))
+    qs.append(Query(name="lib_write_close", harness="c18_lib.c", entry="h_lib_write_close", srcs=["file.c"], unwind=26,
+                    defs=["-DV_NO_STO_STUBS"], remove_bodies=["fileEnsureDirectory", "libUnRegister"], object_bits=12,
+                    timeout=600, bound="every failure schedule over <= 24 stdio calls; one 4-byte section", group=".ao writer"))
     return qs
